@@ -923,9 +923,85 @@ def run_repoint(ctx, rng):
             enc, val, cur, '"%s"' % word), KNOWN_PRED)
 
 
+def run_codec_names(ctx):
+    """every Python codec name as target encoding (encoding attribute, @charset in text; raising and non-raising log):
+    a name that is accepted gives bytes that decode with it to a text that reparses to the same rules; a refused name
+    leaves the encoding as it was"""
+    import cssutils
+    import encodings.aliases
+    import xml.dom
+    from harness import impl
+    names = sorted(set(encodings.aliases.aliases.values()) | {'idna', 'punycode', 'rot13', 'hex', 'base64', 'zlib', 'bz2', 'uu', 'quopri', 'undefined',
+                                                              'unicode_escape', 'raw_unicode_escape', 'utf-8-sig', 'mbcs', 'oem', 'nope'})
+    for name in names:
+        for how in ('attribute', 'attribute-nonraising', 'charset-text'):
+            impl.reset()
+            case = {'family': 'codec-names', 'encoding': name, 'how': how}
+            ctx.case(('codec', name, how))
+            try:
+                if how == 'charset-text':
+                    sheet = cssutils.parseString('@charset "%s"; a{content:"x"}' % name)
+                else:
+                    sheet = cssutils.parseString('a{content:"x"}')
+                    cssutils.log.raiseExceptions = how == 'attribute'
+                    try:
+                        sheet.encoding = name
+                    except xml.dom.DOMException:
+                        pass
+                    finally:
+                        cssutils.log.raiseExceptions = True
+                enc = sheet.encoding
+                data = sheet.cssText
+                text = data.decode(enc)
+                again = cssutils.parseString(text)
+                if [r.cssText for r in again.cssRules if r.type == r.STYLE_RULE] != [r.cssText for r in sheet.cssRules if r.type == r.STYLE_RULE]:
+                    ctx.violation('codec-name-lossy', case, 'reported encoding %r: %r decodes to %r' % (enc, data[:80], text[:80]), KNOWN_PRED)
+            except Exception as e:  # noqa
+                cssutils.log.raiseExceptions = True
+                ctx.violation('codec-name-raises', case, '%s: %s' % (type(e).__name__, str(e)[:160]), KNOWN_PRED)
+
+
+def run_import_spellings(ctx):
+    """an @import added through the DOM as text: however the at-keyword is spelled the imported sheet is decoded as at
+    parse time (with the referring sheet's encoding when it has no encoding information of its own)"""
+    import cssutils
+    from harness import impl
+    body = 'i{content:"\xe9\xfc"}'.encode('utf-8')        # valid UTF-8 and valid in every single-byte encoding
+    for penc in ('iso-8859-1', 'iso-8859-15', 'koi8-r', 'cp1252', 'utf-8'):
+        ref = None
+        for spelling in ('@import', '@IMPORT', '@Import', '@i\\mport', ' @import', '/*c*/@import', '\\40 import', '@\\69 mport'):
+            for via in ('parse', 'insertRule', 'add'):
+                impl.reset()
+                case = {'family': 'import-spellings', 'parent_encoding': penc, 'spelling': spelling, 'via': via}
+                ctx.case(('import-spelling', penc, spelling, via))
+                try:
+                    p = cssutils.CSSParser(fetcher=lambda url: (None, body))
+                    if via == 'parse':
+                        sheet = p.parseString(('@charset "%s"; %s "imp.css"; a{left:0}' % (penc, spelling)).encode(penc), href='http://h/a.css')
+                    else:
+                        sheet = p.parseString(('@charset "%s"; a{left:0}' % penc).encode(penc), href='http://h/a.css')
+                        getattr(sheet, via)('%s "imp.css";' % spelling, *((1,) if via == 'insertRule' else ()))
+                    imps = [r for r in sheet.cssRules if r.type == r.IMPORT_RULE]
+                    if not imps:
+                        continue        # this spelling is no @import rule at all
+                    st = imps[0].styleSheet
+                    got = (st.encoding, [r.cssText for r in st.cssRules])
+                except __import__('xml.dom').dom.DOMException:
+                    continue            # e.g. comment + rule: not one rule
+                except Exception as e:  # noqa
+                    ctx.violation('import-spelling-raises', case, '%s: %s' % (type(e).__name__, str(e)[:160]), KNOWN_PRED)
+                    continue
+                if ref is None:
+                    ref = (got, dict(case))
+                elif got != ref[0]:
+                    ctx.violation('import-spelling', case, 'imported sheet (encoding, rules) %r; with %r it is %r' % (got, ref[1], ref[0]), KNOWN_PRED)
+
+
 def run(ctx):
     quick = ctx.tier == 'quick'
     rng = ctx.rng
+    run_codec_names(ctx)
+    run_import_spellings(ctx)
     for _ in range(60 if quick else 1500):
         run_repoint(ctx, rng)
     ctx.cov['rule'] = ('(a) all rows override{none,4} x transport{none,"",4} x content{neither, BOM x3, @charset x4} x parent{none,4} x bytes/text '
